@@ -42,8 +42,11 @@ type Result struct {
 	Incomplete  []string       `json:"incomplete,omitempty"`
 	NFails      int            `json:"nfails"`
 
-	cur      string
-	curIdx   int
+	// failFilter, when set, drops failures whose class it rejects (a check re-using another
+	// check's scenario with a narrower oracle).
+	failFilter func(class string) bool
+	cur        string
+	curIdx     int
 	caseObs  []string
 	hashes   map[uint64]struct{}
 	hashFile *os.File
@@ -55,6 +58,9 @@ type Result struct {
 }
 
 func (r *Result) Fail(class string, tags []string, cas, detail string) {
+	if r.failFilter != nil && !r.failFilter(class) {
+		return
+	}
 	r.NFails++
 	if len(detail) > 1500 {
 		detail = detail[:1500] + "..."
